@@ -259,7 +259,10 @@ where
             // placed, and trying again on the next line would loop forever if the number of
             // lines is unlimited. Stop wrapping then: the rest is added to the last line and
             // truncated later.
-            if max_lines == 0
+            // (The same holds when so many lines are allowed that emitting them all is out of
+            // the question, e.g. `--wrap-max-lines 18446744073709551615`.)
+            const MAX_LINES_WITHOUT_PROGRESS: usize = 64;
+            if (max_lines == 0 || max_lines > result.len() + MAX_LINES_WITHOUT_PROGRESS)
                 && line_is_empty
                 && graphemes.first().is_some_and(|&(_, w)| w > width_left)
             {
